@@ -21,7 +21,7 @@ from engine.src import FunctionInfo, own_nodes, own_nodes_incl_lambda, src_of, A
 from engine.util import is_self_attr, kwarg, const_value, enclosing_tests
 from engine.dataflow import ReachingDefs
 from .c01 import returns_self_on_all_paths
-from .sem import truth_of, expander, ctext, want, xt, cond_want, conds_at, bind, calls, returns, stmt_of, self_attr_value_texts, guarded_values, paths, RAISE
+from .sem import split_ifexp, truth_of, expander, ctext, want, xt, cond_want, conds_at, bind, calls, returns, stmt_of, self_attr_value_texts, guarded_values, paths, RAISE
 from engine.guards import cond_text
 
 RULES = {
@@ -57,7 +57,7 @@ def check_a(ck, repo):
     M = f"self.method_({X})"
     one_d = cond_text(f"len({M}.shape) == 1")
     alt_1d = {cond_text(f"{M}.ndim == 1")}
-    ps = paths(tr)
+    ps = split_ifexp(paths(tr))
     ok = bool(ps)
     seen = set()
     for p in ps:
@@ -84,7 +84,7 @@ def check_a(ck, repo):
     ck.verdict(got == [mp], "C15.a", sm, f"callable(method) -> {got}", "a callable is used as is", "callable methods are not stored as given")
     # fit
     cs = calls(fit, lambda c: isinstance(c.func, ast.Attribute) and c.func.attr == "fit")
-    _fit_forward(ck, "C15.a", repo, fit, cs[0] if len(cs) == 1 else None, len(cs) == 1 and src_of(cs[0].func.value) == "self.model" and not conds_at(repo, fit, cs[0]), "self.model")
+    _fit_forward(ck, "C15.a", repo, fit, cs[0] if len(cs) == 1 else None, len(cs) == 1 and expander(repo).text(cs[0].func.value, fit, cs[0]) == "self.model" and not conds_at(repo, fit, cs[0]), "self.model")
     returns_self_on_all_paths(ck, "C15.a", fit, repo, "SkBaseTransformLearner.fit")
     # the bound method is set at construction, from the resolved method name
     init = ci.methods["__init__"]
@@ -140,6 +140,12 @@ def check_b(ck, repo):
         allowed = {E0, ctext(f"SkBaseTransformLearner({E0}.model, {E1})"), ctext(f"SkBaseTransformLearner({E0}, {E1})")}
         got = sorted(set(xt(a) for _, a in alts))
         ok = srcs[:1] == [M] and len(srcs) == 2 and set(got) <= allowed and len(got) >= 2
+        # one method for every model: the methods are not a sequence of their own
+        allowed1 = {E0, ctext(f"SkBaseTransformLearner({E0}.model, {ME})"), ctext(f"SkBaseTransformLearner({E0}, {ME})")}
+        if srcs == [M] and set(got) <= allowed1 and len(got) >= 2:
+            converted += 1
+            ck.holds("C15.b", init, st, f"member i is models[i] itself or SkBaseTransformLearner(models[i] or its model, {ME})")
+            continue
         # the second sequence is the list of methods: the parameter itself or one copy of it per model
         if ok:
             ms = [xt(v) for _, v, _ in guarded_values(repo, init, ast.Name(id=srcs[1], ctx=ast.Load()), st)] if srcs[1] != ME else [ME]
@@ -166,12 +172,22 @@ def check_c(ck, repo):
     n_calls = 0
     SIG_Y = "'y' in inspect.signature(self.estimator_.fit).parameters"
     SIG_W = "'sample_weight' in inspect.signature(self.estimator_.fit).parameters"
+    # a bound fit method used as a value (not called on the spot, not inspected)
+    handed = [n for n in own_nodes_incl_lambda(fit.node) if isinstance(n, ast.Attribute) and n.attr in FITS and isinstance(n.ctx, ast.Load)
+              and not (isinstance(getattr(n, "_parent", None), ast.Call) and n._parent.func is n)
+              and not (isinstance(getattr(n, "_parent", None), ast.Call) and src_of(n._parent.func) in ("inspect.signature", "signature", "hasattr", "callable"))]
+    undecided_forms = False
     for trainable in (True, False):
         for p in [p for p in paths(fit, {"self.trainable": trainable}) if p.ret != RAISE]:
             cs = [c for c in p.calls if isinstance(c.func, ast.Attribute) and c.func.attr in FITS]
             where = " and ".join(t if pol else f"not ({t})" for t, pol in p.conds) or "always"
             if not trainable:
                 ck.verdict(not cs, "C15.c", fit, f"trainable=False [{where[:80]}]: {[src_of(c)[:40] for c in cs]}", "the wrapped estimator is refitted only when trainable", "a .fit call is reachable when trainable is False: fit changes the wrapped estimator and its predictions")
+                continue
+            if len(cs) == 0 and handed:
+                ck.unknown("C15.c", fit, f"trainable=True [{where[:80]}]", f"the bound method {src_of(handed[0])} is handed over as a value ({src_of(stmt_of(handed[0]))[:60]}): the call is made elsewhere (a table of callables, a helper), where this rule does not follow it")
+                n_calls += 1
+                undecided_forms = True
                 continue
             if len(cs) != 1:
                 ck.violated("C15.c", fit, f"trainable=True [{where[:80]}]", f"{len(cs)} fit calls on a path of a trainable transfer (expected exactly one)")
@@ -205,7 +221,7 @@ def check_c(ck, repo):
     from engine.report import UNKNOWN as _UNK
 
     unopened = [o for o in ck.obs if o.rule == "C15.c" and o.verdict == _UNK and "container" in (o.detail or "")]
-    if not forms and unopened:
+    if not forms and (unopened or undecided_forms):
         pass  # the call arguments travel in containers the evaluation could not open: reported above as unknown
     else:
       ck.verdict(forms == {(True, True), (True, False), (False, True), (False, False)}, "C15.c", fit, f"signature cases {sorted(forms, key=str)}", "all four signature cases of the wrapped fit are handled", f"fit call forms changed: cases {sorted(forms, key=str)}")
